@@ -108,10 +108,10 @@ R8={
  "C01":"sh(wsh(X)) is satisfied exactly like wsh(X) (both modes). or_c macro fragments in every hole.",
  "C03":"sh(wsh(X)) twin lemma: the non-malleable satisfaction of sh(wsh(X)) is the one of wsh(X), and it refuses where wsh(X) refuses.",
  "C06":"The type the script decoder assigns to the same bytes is judged against the same executions.",
- "C07":"Lift ladder: from_ast conjunction chains of 98..203 keys must be refused by lift() exactly beyond the literal limits.",
+ "C07":"Lift ladder: from_ast conjunction chains of 98..203 keys must be refused by lift() exactly beyond the literal limits; opcode-budget ladder (independent count, 197..206 opcodes, multisigs in every child position): lift() refuses exactly above 201.",
  "C10":"A script mixing multipath expressions of different lengths must be refused by both descriptor parsers (rule computed from the assignment).",
  "C11":"Arity edits: every argument list of every source string with one argument removed / repeated / all removed.",
- "C12":"The multisig kinds of the other script family in every context; parsers judged also where the constructor refuses.",
+ "C12":"The multisig kinds of the other script family in every context; parsers judged also where the constructor refuses. Opcode-budget ladder: 110 terms with a worst-path opcode count made from first principles, refused by check_local_consensus_validity / from_str_insane / within_resource_limits / lift exactly above 201.",
  "C13":"or_c macro fragments in every hole of the shared families.",
  "C14":"Stale-signatures configuration: signatures made for another transaction, nothing that needs a signature may be finalized. Output updates: recorded scripts / origins / tap tree of every family member's output, foreign outputs refused and untouched, the _unchecked trait methods equal the checked entry points.",
  "C20":"Translation into multipath keys: 81 path-tuple length assignments x 7 descriptors, accepted iff every single script agrees.",
